@@ -109,7 +109,15 @@ func judgeC06(role string, steps []string, w *World, res *MonitorResult) {
 			claimedOnChain = true // the claim IS on the chain; the node just does not know (a C16 matter, not C06)
 		}
 	}
-	if paid && !w.dead && !crashed && !claimedOnChain && nFaults > 0 && nFaults <= 3 && strings.HasSuffix(last, "_ClaimSwap") {
+	if paid && !w.dead && !crashed && !claimedOnChain && nFaults > 21 && strings.HasSuffix(last, "_ClaimSwap") {
+		// the state machine retries 21 times (with back-off: a few minutes) and then returns; nothing sends it
+		// another event until the process is restarted
+		res.Histogram["paid, wallet failed more than 21 times, gave up"]++
+		res.addFinding(fmt.Sprintf("C06/%s/gave-up-claiming-after-21-retries", role),
+			"the taker paid, its wallet failed to build the preimage claim "+fmt.Sprint(nFaults)+" times in a row, and it stopped trying for good although the wallet works again (rests in "+last+" with the process alive; only a restart resumes the claim)",
+			map[string]interface{}{"scenario": scenarioKey(steps)})
+	}
+	if paid && !w.dead && !crashed && !claimedOnChain && nFaults > 0 && nFaults <= 21 && strings.HasSuffix(last, "_ClaimSwap") {
 		res.Histogram["paid, wallet failed once, still claiming?"]++
 		res.addFinding(fmt.Sprintf("C06/%s/stopped-claiming-after-wallet-failure", role),
 			"the taker paid, its wallet failed to build the preimage claim "+fmt.Sprint(nFaults)+" time(s), and it stopped trying (rests in "+last+" with the process alive)",
@@ -162,7 +170,7 @@ func init() {
 		}
 		// the wallet fails to build the preimage claim once / twice after the payment went out
 		for _, chain := range []string{"btc", "lbtc"} {
-			for _, k := range []int{1, 2} {
+			for _, k := range []int{1, 2, 20, 22} {
 				f := rep("fault preimage down", k)
 				all = append(all, scn{role: "outSender", steps: cat([]string{"new outSender " + chain, "agree", "txmsg"}, f, []string{"confirm"})})
 				all = append(all, scn{role: "inReceiver", steps: cat([]string{"new inReceiver " + chain, "txmsg"}, f, []string{"confirm"})})
